@@ -25,7 +25,8 @@ def verdictOf (d0 : Digest) (blobs0 : List Bytes) (g : Bytes) : String :=
       | _ => "fail"
   | _ => "fail"
 
-def handle : List String → String
+partial def handle : List String → String
+  | ["digest", fhex, ph, _wf] => handle ["digest", fhex, ph]
   | ["digest", fhex, ph] =>
     match fromHex fhex with
     | none => "bad-op"
